@@ -101,6 +101,18 @@ def rule_n1(F, regs):
         if M:
             r.bad("builtin", key, relfile(b.file), b.line,
                   "the built-in registered as `%s` on %s calls %s on its receiver - the name and the operation disagree" % (name, st_full, sorted(M)))
+        elif g["self_ty"]:
+            # a method that neither delegates to the operation of its name nor is a reviewed hand-written body (N1_FREE): on the reference
+            # tree every method is one or the other, so a body written out by hand (`to_canonical` via `to_ipv4()` instead of
+            # `to_ipv4_mapped()`) is a deviation from the delegation scheme that has to be read before it is trusted
+            v = hir.strip(b.hir["value"])
+            while v.get("k") == "block" and not (v.get("stmts") or []) and v.get("expr") is not None:
+                v = hir.strip(v["expr"])
+            identity = v.get("k") == "path" and hir.res_local(v) == (b.hir["params"][0].get("local") if b.hir["params"] else None)
+            if not identity:
+                r.bad("builtin", key + " (hand-written)", relfile(b.file), b.line,
+                      "the method registered as `%s` on %s does not delegate to the operation of that name on its receiver and is not a reviewed hand-written body: "
+                      "its agreement with the Rust counterpart is not given by construction" % (name, st_full))
     return r
 
 
